@@ -432,6 +432,9 @@ def run(an: Analysis, rep):
     from . import c02 as _c02
     rep.run(rejection_paths_rule, an, _SR4(rep, "R04.R", "every place where from_code can stop with an exception is one confirmed by reading (shared with C02's R02.R): a function whose code object is "
                                                         "refused has no decoded signature, docstring or kind at all"), "R02.R", ["from_code"], _c02.DECODER_REJECTIONS, "from_code")
+    from . import c11 as _c11n
+    rep.run(_c11n.r11n, an, _SR4(rep, "R04.N", "the names the decoder gives to flag bits are CPython's (shared with C11's R11.N): Function.type is read off those names, so exchanged values call "
+                                              "every coroutine an async generator"))
     rep.run(field_rewrite_rule, an, rep, "R04.8")
     rep.run(substring_rule, an, rep, "R04.9", ["parameters", "args_len"])
     for fn in (r041, r041_input, r041_unconditional, r042, r043, r044, r045, r046, r046_kind, r046_module_await, r047, r04i):
